@@ -7,14 +7,19 @@ pub mod c01;
 pub mod c02;
 pub mod c03;
 pub mod c04;
+pub mod c05;
+pub mod c06;
 pub mod c07;
 pub mod c08;
+pub mod c09;
 pub mod c10;
+pub mod c11;
+pub mod c12;
 pub mod c17;
 pub mod c18;
 
 pub fn ids() -> Vec<&'static str> {
-    vec!["C01", "C02", "C03", "C04", "C07", "C08", "C10", "C17", "C18"]
+    vec!["C01", "C02", "C03", "C04", "C05", "C06", "C07", "C08", "C09", "C10", "C11", "C12", "C17", "C18"]
 }
 
 pub fn get(id: &str) -> Option<CheckDef> {
@@ -23,9 +28,14 @@ pub fn get(id: &str) -> Option<CheckDef> {
         "C02" => c02::def(),
         "C03" => c03::def(),
         "C04" => c04::def(),
+        "C05" => c05::def(),
+        "C06" => c06::def(),
         "C07" => c07::def(),
         "C08" => c08::def(),
+        "C09" => c09::def(),
         "C10" => c10::def(),
+        "C11" => c11::def(),
+        "C12" => c12::def(),
         "C17" => c17::def(),
         "C18" => c18::def(),
         _ => return None,
